@@ -358,7 +358,7 @@ def run_unit(name, mod, only_props, tier):
     if hasattr(mod, "constants_check"):
         try:
             for cname, okk, clause in mod.constants_check(read):
-                ob = new_ob(cname, cname, clause)
+                ob = new_ob(cname, cname, clause, getattr(mod, "CONSTANTS_PROPS", None))
                 ob.vcs = 1
                 ob.status = DISCHARGED if okk else FAILED
                 if not okk:
